@@ -174,7 +174,7 @@ package receiver
 // different type (directory over non-directory, regular file over
 // non-regular); --delete removes extraneous (unlisted) entries.
 //@ func (*receiver.Transfer).recvGenerator
-//@   allows[C04] fsunlink(h) if h == rt.DestRoot && entryExists(rt.DestRoot, f.Name) && (mod(div(f.Mode, 4096), 16) == 4 && !modeIsDir(infoMode(destInfo(rt, f))) || mod(div(f.Mode, 4096), 16) != 4 && !modeIsRegular(infoMode(destInfo(rt, f))))
+//@   allows[C04] fsunlink(h) if h == rt.DestRoot && entryExists(rt.DestRoot, f.Name) && (bits32(f.Mode, 12, 4) == 4 && !modeIsDir(infoMode(destInfo(rt, f))) || bits32(f.Mode, 12, 4) != 4 && !modeIsRegular(infoMode(destInfo(rt, f))))
 //@ func (*receiver.Transfer).GenerateFiles
 //@   allows[C04] fsunlink(h) if h == rt.DestRoot
 //@ func (*receiver.Transfer).deleteFiles$1
